@@ -135,12 +135,14 @@ class Signal(Command):
             elif children:
                 watcher.send_signal_children(pid, signum)
             else:
+                if recursive:
+                    # also send to the children, and to them first: they
+                    # are no longer the children of a process that has died
+                    # from the signal
+                    watcher.send_signal_children(pid, signum, recursive=True)
+
                 # send to the given pid
                 watcher.send_signal(pid, signum)
-
-                if recursive:
-                    # also send to the children
-                    watcher.send_signal_children(pid, signum, recursive=True)
 
     def validate(self, props):
         super(Signal, self).validate(props)
